@@ -17,6 +17,30 @@ type c06PtrEmbedded struct {
 	ViaPtr int64
 }
 
+// three levels of by-value embedding with several promoted fields each
+type C06L3 struct{ X3, Y3, Z3 int64 }
+type C06L2 struct {
+	C06L3
+	X2, Y2 int64
+}
+type C06L1 struct {
+	C06L2
+	X1 int64
+}
+
+// a field name declared at depth 0 and again in an embedded struct: depth 0 wins in Go
+type C06Shadowed struct{ Name, Only int64 }
+type c06Shadow struct {
+	Name int64
+	C06Shadowed
+}
+
+// the embedded struct declared first
+type c06Shadow2 struct {
+	C06Shadowed
+	Name int64
+}
+
 type c06Outer struct {
 	c06Embedded
 	*c06PtrEmbedded
@@ -72,6 +96,16 @@ var c06Access = []struct {
 	{".A", func(d *c06Outer) int64 { return d.A }},
 	{".In.Leaf", func(d *c06Outer) int64 { return d.In.Leaf }},
 	{".SMap.k", func(d *c06Outer) int64 { return d.SMap["k"] }},
+	{"deep.X3 * z + deep.Y3 * z + deep.Z3", func(d *c06Outer) int64 { return 13 }},
+	{"deep.Z3 * z + deep.X3", func(d *c06Outer) int64 { return 11 }},
+	{"deep.Y3", func(d *c06Outer) int64 { return 12 }},
+	{"deep.Y2 * z + deep.X2", func(d *c06Outer) int64 { return 21 }},
+	{"deep.X1", func(d *c06Outer) int64 { return 31 }},
+	{"sh.Name", func(d *c06Outer) int64 { return 100 }},
+	{"sh.Only * z + sh.Name", func(d *c06Outer) int64 { return 100 }},
+	{"sh.Only", func(d *c06Outer) int64 { return 300 }},
+	{"sh2.Name", func(d *c06Outer) int64 { return 100 }},
+	{"sh2.Only * z + sh2.Name", func(d *c06Outer) int64 { return 100 }},
 }
 
 func c06Data() *c06Outer {
@@ -92,7 +126,7 @@ func c06Data() *c06Outer {
 	return d
 }
 
-// H_C06_access: 29 access paths (fields incl. promoted ones through embedded structs and
+// H_C06_access: 39 access paths (three-level promotion and shadowed names included) (fields incl. promoted ones through embedded structs and
 // embedded pointers, a.b vs a["b"], slice/array/map elements, maps with int keys, methods
 // on values and pointers, through pointers / pointer-to-pointer / interfaces, from a
 // variable and from '.') over a data graph whose leaves are symbolic: the value reached is
@@ -109,6 +143,10 @@ func H_C06_access() {
 	vars.Set("pp", &d)
 	vars.Set("v", *d)
 	vars.Set("ik", 7)
+	vars.Set("z", int64(0))
+	vars.Set("deep", C06L1{C06L2: C06L2{C06L3: C06L3{11, 12, 13}, X2: 21, Y2: 22}, X1: 31})
+	vars.Set("sh", c06Shadow{Name: 100, C06Shadowed: C06Shadowed{Name: 200, Only: 300}})
+	vars.Set("sh2", c06Shadow2{Name: 100, C06Shadowed: C06Shadowed{Name: 200, Only: 300}})
 	vars.SetFunc("cap", c04Capture(&got))
 	_, err := hxExec(set, "/m.jet", vars, d)
 	vfReach("reached")
@@ -200,7 +238,9 @@ func H_C06_slice() {
 	if onString {
 		vars.Set("x", "abcd")
 	} else {
-		vars.Set("x", []string{"a", "b", "c", "d"})
+		// a slice with spare capacity: elements beyond len must stay unreachable
+		backing := []string{"a", "b", "c", "d", "secret1", "secret2"}
+		vars.Set("x", backing[:4])
 	}
 	vars.Set("i", i)
 	vars.Set("j", j)
